@@ -1,8 +1,16 @@
 """Executable reference model of the packet store (C19).
 
-A model state maps (arg0, arg1) -> non-empty FIFO tuple of (cmd, data).  Because parking a CLSE for a pair with nothing
-pending is left unspecified by the property, the checker keeps the SET of states consistent with what was observed.
+A model state maps (arg0, arg1) -> FIFO tuple of (cmd, data) for every pair the store KNOWS (something was parked for it
+and it was neither closed nor cleared since); the tuple is empty when everything parked so far was retrieved.  Pending
+pairs are those with a non-empty tuple.  Parking a CLSE for a pair the store does not know is left unspecified by the
+property, so the checker keeps the SET of states consistent with what was observed; a CLSE for a known pair -- also one
+whose backlog was consumed -- must be kept like any other packet.
 """
+
+
+def pending(st):
+    """pairs of a frozen state that have packets"""
+    return [p for p, q in st if q]
 
 
 def matches(pattern, pair):
@@ -29,7 +37,7 @@ class Ref(object):
     def put(self, a0, a1, cmd, data, clse):
         def fn(d):
             key = (a0, a1)
-            if cmd != clse or key in d:
+            if cmd != clse or key in d:        # (known pair, possibly drained)
                 d[key] = d.get(key, ()) + ((cmd, data),)
                 return [d]
             stored = dict(d)
@@ -48,7 +56,7 @@ class Ref(object):
 
     def get_applicable(self, pattern):
         """True if every state has a pending pair matching the pattern, False if none has, None if they disagree."""
-        r = set(any(matches(pattern, p) for p, _ in st) for st in self.states)
+        r = set(any(matches(pattern, p) for p in pending(st)) for st in self.states)
         return r.pop() if len(r) == 1 else None
 
     def observe_get(self, pattern, result, clse):
@@ -61,10 +69,8 @@ class Ref(object):
                 continue
             if cmd == clse:
                 del d[(r0, r1)]       # retrieving a stream's CLSE forgets that stream
-            elif len(q) == 1:
-                del d[(r0, r1)]
             else:
-                d[(r0, r1)] = q[1:]
+                d[(r0, r1)] = q[1:]   # (an empty tuple: the pair stays known)
             out.add(freeze(d))
         return self._narrow(out, "get%r returned %r" % (pattern, result))
 
@@ -79,7 +85,7 @@ class Ref(object):
     def observe_find(self, pattern, result):
         out = set()
         for st in self.states:
-            cands = [p for p, _ in st if matches(pattern, p)]
+            cands = [p for p in pending(st) if matches(pattern, p)]
             if (result is None and not cands) or (result is not None and tuple(result) in cands):
                 out.add(st)
         return self._narrow(out, "find%r returned %r" % (pattern, result))
@@ -89,14 +95,14 @@ class Ref(object):
         pats = ((a0, a1), (a0, 0), (0, a1), (0, 0))
         out = set()
         for st in self.states:
-            cands = [p for p, _ in st if any(matches(pt, p) for pt in pats)]
+            cands = [p for p in pending(st) if any(matches(pt, p) for pt in pats)]
             if (result is None and not cands) or (result is not None and tuple(result) in cands):
                 out.add(st)
         return self._narrow(out, "find_allow_zeros%r returned %r" % (pattern, result))
 
     def observe_len(self, n):
-        return self._narrow(set(st for st in self.states if len(st) == n), "len() returned %r" % (n,))
+        return self._narrow(set(st for st in self.states if len(pending(st)) == n), "len() returned %r" % (n,))
 
     def observe_contains(self, pattern, result):
-        out = set(st for st in self.states if bool(result) == any(matches(pattern, p) for p, _ in st))
+        out = set(st for st in self.states if bool(result) == any(matches(pattern, p) for p in pending(st)))
         return self._narrow(out, "%r in store returned %r" % (pattern, result))
